@@ -4,6 +4,7 @@ import (
 	"bytes"
 	"encoding/hex"
 	"fmt"
+	"reflect"
 	"strconv"
 	"strings"
 	"testing"
@@ -106,8 +107,19 @@ type obs struct {
 func observe(kt *keytab.Keytab) []obs {
 	out := make([]obs, len(kt.Entries))
 	for i, e := range kt.Entries {
-		out[i] = obs{Realm: e.Principal.Realm, Comps: e.Principal.Components, NumComp: int(e.Principal.NumComponents), NameType: uint32(e.Principal.NameType),
-			TSUnix: e.Timestamp.Unix(), Vno8: e.KVNO8, Kvno: e.KVNO, KeyType: e.Key.KeyType, Key: e.Key.KeyValue}
+		out[i] = obs{Realm: strings.Clone(e.Principal.Realm), Comps: cloneStrings(e.Principal.Components), NumComp: int(e.Principal.NumComponents), NameType: uint32(e.Principal.NameType),
+			TSUnix: e.Timestamp.Unix(), Vno8: e.KVNO8, Kvno: e.KVNO, KeyType: e.Key.KeyType, Key: append([]byte{}, e.Key.KeyValue...)}
+	}
+	return out
+}
+
+func cloneStrings(xs []string) []string {
+	if xs == nil {
+		return nil
+	}
+	out := make([]string, len(xs))
+	for i, x := range xs {
+		out[i] = strings.Clone(x)
 	}
 	return out
 }
@@ -230,7 +242,7 @@ var baseRealms = []string{"EXAMPLE.COM", "TEST.GOKRB5", "example.com", "Example.
 var baseNames = [][]string{
 	{}, {"user"}, {"testuser1"}, {"host", "a.example.com"}, {"HTTP", "a.example.com"}, {"a", "b", "c"}, {"a", "b", "c", "d"},
 	{""}, {"", ""}, {"user", ""}, {"", "user"}, {"User"}, {"host/a.example.com"}, {"krbtgt", "EXAMPLE.COM"}, {"ü", "名前"}, {"\x00", "\xff\x80"},
-	{"user", "admin"}, {"a", "a", "a"}, {longStr(255, 3)}, {longStr(256, 4), "x"}, {"x", longStr(300, 5)}, {"x", "y", "z", longStr(257, 6)},
+	{"user", "admin"}, {"a", "a", "a"}, {"svc/a", "host"}, {"svc", "a/host"}, {"a/b", "c/d", "e"}, {"/", "x"}, {"x/", "/y"}, {longStr(255, 3)}, {longStr(256, 4), "x"}, {"x", longStr(300, 5)}, {"x", "y", "z", longStr(257, 6)},
 }
 
 var knownEtypes = []uint16{1, 2, 3, 16, 17, 18, 19, 20, 23, 24, 25, 26}
@@ -313,6 +325,10 @@ func nameVariants(n []string) []variant {
 		add("name-dup-last", append(cp(n), n[len(n)-1]))
 	}
 	if len(n) > 1 {
+		// the same text cut into the same number of components at other places: names are sequences, not their "/"-joined text
+		for _, v := range recuts(n) {
+			add("name-recut", v)
+		}
 		add("name-joined", []string{strings.Join(n, "/")})
 		c := cp(n)
 		c[0], c[len(c)-1] = c[len(c)-1], c[0]
@@ -320,6 +336,45 @@ func nameVariants(n []string) []variant {
 		add("name-concat", []string{strings.Join(n, "")})
 	}
 	return vs
+}
+
+// recuts returns the other ways of cutting strings.Join(n, "/") at "/" into len(n) components (at most 6).
+func recuts(n []string) [][]string {
+	j := strings.Join(n, "/")
+	var pos []int
+	for i := 0; i < len(j); i++ {
+		if j[i] == '/' {
+			pos = append(pos, i)
+		}
+	}
+	k := len(n) - 1
+	var out [][]string
+	var rec func(from int, chosen []int)
+	rec = func(from int, chosen []int) {
+		if len(out) >= 6 {
+			return
+		}
+		if len(chosen) == k {
+			var v []string
+			last := 0
+			for _, c := range chosen {
+				v = append(v, j[last:c])
+				last = c + 1
+			}
+			v = append(v, j[last:])
+			if !eqNames(v, n) {
+				out = append(out, v)
+			}
+			return
+		}
+		for i := from; i < len(pos); i++ {
+			rec(i+1, append(append([]int{}, chosen...), pos[i]))
+		}
+	}
+	if len(pos) > k && len(pos) <= 12 {
+		rec(0, nil)
+	}
+	return out
 }
 
 func keyLenFor(et uint16) int {
@@ -974,11 +1029,30 @@ func runBuilt(r *vh.Run, c *ktCase, i int, nLookups int) {
 	base := func() map[string]any {
 		return map[string]any{"case": key, "version": version, "file_hex": fileHex(file), "model_entries": descEntries(c.entries), "holes": c.holes}
 	}
-	if p, v, w := vh.Guard(func() { uerr = kt.Unmarshal(file) }); p {
+	// The parser gets a buffer of its own which is overwritten as soon as Unmarshal has returned, as a caller reading file
+	// after file into one buffer would: what was parsed must not change with it (encoding.BinaryUnmarshaler: "UnmarshalBinary
+	// must copy the data if it wishes to retain the data after returning").
+	in := append([]byte{}, file...)
+	if p, v, w := vh.Guard(func() { uerr = kt.Unmarshal(in) }); p {
 		r.Violation(fmt.Sprintf("C14|panic|%s|%s", w, vh.PanicClass(v)), "Unmarshal panicked on a well-formed file: "+v, base())
 		return
 	}
+	if !bytes.Equal(in, file) {
+		r.Violation("C14|parse|input-modified", "Unmarshal modified the bytes it was given", base())
+		return
+	}
 	got := observe(kt)
+	for k := range in {
+		in[k] = 0xA5
+	}
+	if again := observe(kt); uerr == nil && !reflect.DeepEqual(got, again) {
+		d := base()
+		d["parsed_entries"] = descObs(got)
+		d["parsed_entries_after_the_buffer_was_overwritten"] = descObs(again)
+		r.Violation("C14|parse|input-buffer-retained", "the entries of a parsed keytab change when the caller overwrites the buffer it had passed to Unmarshal", d)
+		return
+	}
+	n.inc("parse_input_buffer_overwritten_entries_unchanged")
 	f, at := "", -1
 	if uerr != nil {
 		f = "error"
